@@ -506,6 +506,38 @@ Proof.
   destruct (index_of_alphabet _ H) as [k [E [R C]]]. rewrite E. exists k. auto.
 Qed.
 
+(* pack_to_int on 1..3 characters with known table positions (the ljust(3) padding is position 0) *)
+Lemma index_space : index_of rad50_table 32%N = Some 0.
+Proof. reflexivity. Qed.
+
+Lemma pack_to_int_3 a b c ka kb kc :
+  index_of rad50_table a = Some ka -> index_of rad50_table b = Some kb -> index_of rad50_table c = Some kc ->
+  pack_to_int rad50_table [a; b; c] = Ok (ka * 1600 + kb * 40 + kc).
+Proof. intros A B C. unfold pack_to_int, encode_char. cbn [length Nat.ltb Nat.leb app repeat Nat.sub]. rewrite A, B, C. reflexivity. Qed.
+
+Lemma pack_to_int_2 a b ka kb :
+  index_of rad50_table a = Some ka -> index_of rad50_table b = Some kb ->
+  pack_to_int rad50_table [a; b] = Ok (ka * 1600 + kb * 40 + 0).
+Proof. intros A B. unfold pack_to_int, encode_char. cbn [length Nat.ltb Nat.leb app repeat Nat.sub]. rewrite A, B, index_space. reflexivity. Qed.
+
+Lemma pack_to_int_1 a ka :
+  index_of rad50_table a = Some ka ->
+  pack_to_int rad50_table [a] = Ok (ka * 1600 + 0 * 40 + 0).
+Proof. intros A. unfold pack_to_int, encode_char. cbn [length Nat.ltb Nat.leb app repeat Nat.sub]. rewrite A, index_space. reflexivity. Qed.
+
+Lemma decode_one a b c ca cb cc :
+  0 <= a < 40 -> 0 <= b < 40 -> 0 <= c < 40 ->
+  char_of_code a = Some ca -> char_of_code b = Some cb -> char_of_code c = Some cc ->
+  decode [a * 1600 + b * 40 + c] = Some [ca; cb; cc].
+Proof.
+  intros Ha Hb Hc A B C. destruct (pack_unpack a b c Ha Hb Hc) as [U _].
+  unfold decode, unpack_all, unpack_list. cbn [flat_map]. rewrite U. cbn [app chars_of_codes].
+  rewrite A, B, C. reflexivity.
+Qed.
+
+Lemma char_of_code_0 : char_of_code 0 = Some 32%N.
+Proof. reflexivity. Qed.
+
 (* ^Rccc, 1..3 characters, is the word '.rad50' emits for the same characters, and it decodes to the
    upper-cased characters padded with spaces *)
 Theorem literal_spec upper s rest :
@@ -523,34 +555,43 @@ Proof.
   unfold literal. rewrite TW.
   replace (firstn 3 s) with s by (symmetry; apply firstn_all2; lia).
   rewrite (flat_map_upper upper s U Hs).
-  assert (I0 : index_of rad50_table 32%N = Some 0) by reflexivity.
-  assert (C0 : char_of_code 0 = Some 32%N) by reflexivity.
-  destruct s as [|c1 [|c2 [|c3 [|c4 r]]]]; simpl in Hl; try lia.
+  destruct s as [|c1 [|c2 [|c3 [|c4 r]]]]; cbn [length] in Hl; try lia.
   - inversion Hs as [|? ? [A1 _] _]; subst.
     destruct (accepted_lookup upper c1 U A1) as [k1 [I1 [E1 [R1 C1]]]].
-    destruct (pack_unpack k1 0 0 R1 ltac:(lia) ltac:(lia)) as [Un Rn].
+    destruct (pack_unpack k1 0 0 R1 ltac:(lia) ltac:(lia)) as [_ Rn].
     exists (k1 * 1600 + 0 * 40 + 0).
-    unfold pack_to_int, encode_char, rad50. simpl. rewrite I1, I0, E1. simpl.
-    rewrite le16_H by lia. simpl. repeat split; try lia.
-    unfold decode, unpack_all, unpack_list. simpl. rewrite Un. simpl. rewrite C1, C0. reflexivity.
+    cbn [map]. rewrite (pack_to_int_1 _ _ I1).
+    split; [reflexivity|]. split.
+    { unfold rad50. cbn [chunk_codes map flat_map app fst snd]. rewrite E1.
+      cbn [fst snd err_if app pack_words]. rewrite le16_H by lia. reflexivity. }
+    split; [lia|].
+    apply (decode_one k1 0 0 _ _ _ R1 ltac:(lia) ltac:(lia) C1 char_of_code_0 char_of_code_0).
   - inversion Hs as [|? ? [A1 _] Hs2]; subst. inversion Hs2 as [|? ? [A2 _] _]; subst.
     destruct (accepted_lookup upper c1 U A1) as [k1 [I1 [E1 [R1 C1]]]].
     destruct (accepted_lookup upper c2 U A2) as [k2 [I2 [E2 [R2 C2]]]].
-    destruct (pack_unpack k1 k2 0 R1 R2 ltac:(lia)) as [Un Rn].
+    destruct (pack_unpack k1 k2 0 R1 R2 ltac:(lia)) as [_ Rn].
     exists (k1 * 1600 + k2 * 40 + 0).
-    unfold pack_to_int, encode_char, rad50. simpl. rewrite I1, I2, I0, E1, E2. simpl.
-    rewrite le16_H by lia. simpl. repeat split; try lia.
-    unfold decode, unpack_all, unpack_list. simpl. rewrite Un. simpl. rewrite C1, C2, C0. reflexivity.
+    cbn [map]. rewrite (pack_to_int_2 _ _ _ _ I1 I2).
+    split; [reflexivity|]. split.
+    { unfold rad50. cbn [chunk_codes map flat_map app fst snd]. rewrite E1, E2.
+      cbn [fst snd err_if app pack_words]. rewrite le16_H by lia. reflexivity. }
+    split; [lia|].
+    apply (decode_one k1 k2 0 _ _ _ R1 R2 ltac:(lia) C1 C2 char_of_code_0).
   - inversion Hs as [|? ? [A1 _] Hs2]; subst. inversion Hs2 as [|? ? [A2 _] Hs3]; subst. inversion Hs3 as [|? ? [A3 _] _]; subst.
     destruct (accepted_lookup upper c1 U A1) as [k1 [I1 [E1 [R1 C1]]]].
     destruct (accepted_lookup upper c2 U A2) as [k2 [I2 [E2 [R2 C2]]]].
     destruct (accepted_lookup upper c3 U A3) as [k3 [I3 [E3 [R3 C3]]]].
-    destruct (pack_unpack k1 k2 k3 R1 R2 R3) as [Un Rn].
+    destruct (pack_unpack k1 k2 k3 R1 R2 R3) as [_ Rn].
     exists (k1 * 1600 + k2 * 40 + k3).
-    unfold pack_to_int, encode_char, rad50. simpl. rewrite I1, I2, I3, E1, E2, E3. simpl.
-    rewrite le16_H by lia. simpl. repeat split; try lia.
-    unfold decode, unpack_all, unpack_list. simpl. rewrite Un. simpl. rewrite C1, C2, C3. reflexivity.
+    cbn [map]. rewrite (pack_to_int_3 _ _ _ _ _ _ I1 I2 I3).
+    split; [reflexivity|]. split.
+    { unfold rad50. cbn [chunk_codes map flat_map app fst snd]. rewrite E1, E2, E3.
+      cbn [fst snd err_if app pack_words]. rewrite le16_H by lia. cbn [bind app]. rewrite app_nil_r. reflexivity. }
+    split; [lia|].
+    apply (decode_one k1 k2 k3 _ _ _ R1 R2 R3 C1 C2 C3).
 Qed.
+
+
 
 (* an empty literal and one longer than three characters are reported *)
 Theorem literal_bad_length upper text :
